@@ -502,18 +502,21 @@ fn confirm(exe: &str, case: &str, timeout: Duration, mem: u64) -> Value {
 }
 
 fn run(args: &[String]) {
+    // the workers run from a private copy of this binary next to the output file: the build directory (a shadow crate
+    // under .work/ when VERIF_REPO is set) is shared with other runs and may be cleaned away under us; /proc/self/exe
+    // can be copied even then
+    let me = std::env::current_exe().unwrap();
+    let outp = arg(args, "--out").unwrap();
+    let dir = std::path::Path::new(&outp).parent().filter(|p| !p.as_os_str().is_empty()).unwrap_or(std::path::Path::new(".")).to_path_buf();
+    let copy = dir.join(format!("c04-worker-{}", std::process::id()));
+    let exe = match std::fs::copy("/proc/self/exe", &copy).or_else(|_| std::fs::copy(&me, &copy)).and_then(|_| std::fs::canonicalize(&copy)) {
+        Ok(p) => p.to_string_lossy().to_string(),
+        Err(_) => me.to_string_lossy().to_string(),
+    };
     let recs = read_ndjson(&arg(args, "--in").unwrap());
     let jobs = arg_u64(args, "--jobs", 8) as usize;
     let mem = arg_u64(args, "--mem-mb", 4096);
     let max_hangs = arg_u64(args, "--max-hangs", 24) as usize;
-    // the workers run from a private copy of this binary next to the output file: the build directory (a shadow crate
-    // under .work/ when VERIF_REPO is set) is shared with other runs and may be cleaned away under us
-    let me = std::env::current_exe().unwrap();
-    let copy = std::path::Path::new(&arg(args, "--out").unwrap()).with_file_name(format!("c04-worker-{}", std::process::id()));
-    let exe = match std::fs::copy(&me, &copy) {
-        Ok(_) => copy.to_string_lossy().to_string(),
-        Err(_) => me.to_string_lossy().to_string(),
-    };
     // batches of cases with the same time limit
     let mut order: Vec<usize> = (0..recs.len()).filter(|&i| !recs[i]["skip"].as_bool().unwrap_or(false)).collect();
     order.sort_by_key(|&i| (recs[i]["tmo_ms"].as_u64().unwrap_or(3000), i));
